@@ -1,7 +1,7 @@
 SPECIFICATION TraceSpec
 CONSTANTS
     FieldBytes <- TrFieldBytes
-    NormOf <- TrNormOf
+    NormTable <- TrNormTable
     BatchOf <- TrBatchOf
 POSTCONDITION TraceAccepted
 CHECK_DEADLOCK FALSE
